@@ -149,6 +149,10 @@ Clause(i, cl, nn, old, new, seen) ==
                 ELSE LET pr == FoldSet(LAMBDA r, acc : IF SCmp(Eval(cl.poly, r.s), cl.thr) > 0
                                                           THEN SAdd(acc, r.w) ELSE acc, SZero, d).a
                      IN  IF RCmpFrac(pr, cl.p, cl.q) >= 0 THEN OK ELSE Bad(i, cl, nn, pr)
+      [] cl.t = "momeq" ->        \* E_a[pa] = E_b[pb] : the same moment in two programs
+            LET x == Moment(cl.pa, new[cl.a])
+                y == Moment(cl.pb, new[cl.b])
+            IN  IF x = y THEN OK ELSE Bad(i, cl, nn, <<x, y>>)
       [] cl.t = "cdraw" ->        \* E[m * z^k] for a final, moment-only draw z = fam(params(store))
             LET x == DrawMoment(cl.fam, cl.params, cl.k, cl.poly, new[cl.pi]).a
             IN  IF REqFrac(x, cl.p, cl.q) THEN OK ELSE Bad(i, cl, nn, x)
